@@ -24,6 +24,8 @@ Why(ev) ==
     LET L == Layout(ev.comp, ev.op, ev.pad, ev.depth)
     IN [layout |-> ~(<<ev.comp, ev.op>> \in CompOps /\ ev.roots = L.roots /\ ev.base = L.base),
         changed |-> {ev.changes[i].k : i \in {j \in 1..Len(ev.changes) : ~Inside(L.roots, ev.changes[j].p)}},
+        where |-> {ev.changes[i].p : i \in {j \in 1..Len(ev.changes) : ~Inside(L.roots, ev.changes[j].p)}}
+                  \cup {ev.got[i] : i \in {j \in 1..Len(ev.got) : ~Inside(L.roots, ev.got[j])}},
         returned |-> \E i \in 1..Len(ev.got) : ~Inside(L.roots, ev.got[i]),
         noerror |-> Escapes(L.roots, L.base, ev.segs) /\ ~(ev.err /\ ~ev.panic),
         escapes |-> Escapes(L.roots, L.base, ev.segs),
